@@ -64,6 +64,7 @@ class Profile(object):
         self.p_reconstrain = 0.3     # constraint on a type reference
         self.p_big_size = 0.05
         self.p_components_of = 0.0
+        self.p_alias = 0.06           # type assignment that is a bare type reference (chains of references)
         self.p_twin_member = 0.12     # reuse (member name, referenced type) of an earlier member with another DEFAULT/OPTIONAL
         self.tag_defaults = [None, 'AUTOMATIC', 'AUTOMATIC', 'IMPLICIT', 'EXPLICIT']
         self.high_tags = False
@@ -169,7 +170,13 @@ class Gen(object):
                 self.cur_type_index = i
                 self.cur_names = names
                 top_constr = rnd.random() < p.p_constructed_top
-                t = self.gen_type(0, top=True, want_constructed=top_constr)
+                t = None
+                if self.type_pool and rnd.random() < p.p_alias:
+                    t = self.gen_ref(False)            # A ::= B: a type assignment that is only a (constrained) reference
+                    if t is not None:
+                        self.feat('alias_type')
+                if t is None:
+                    t = self.gen_type(0, top=True, want_constructed=top_constr)
                 if rnd.random() < p.p_type_tag and t.tag is None and t.kind != 'CHOICE':
                     t.tag = self.rand_tag(allow_universal=False)
                     self.feat('type_assignment_tag')
